@@ -63,6 +63,21 @@ def _lib_blob(hash_name: str, ptlen: int, trailing: bool, idx: int) -> Base:
     return Base(name, rk, bytes(blob), pt, cms.parse_blob(bytes(blob))["offsets"], "lib")
 
 
+_BIG: t.List[Base] = []
+
+
+def big_blobs() -> t.List[Base]:
+    """Blobs whose content is larger than 1 MiB (streaming / chunked code paths), both layouts."""
+    if not _BIG:
+        for n, trailing in ((1024 * 1024 + 17, False), (2 * 1024 * 1024, True)):
+            _BIG.append(_ref_blob("SHA256", "nonce", n, trailing, 70))
+        for b in _BIG:
+            o, _w, _k = unprotect_stored(b, b.blob)
+            if o.kind != "ok" or o.value != b.plaintext:
+                raise common.HarnessError(f"big base blob {b.name} does not round-trip: {o.brief()} {o.exc!r}")
+    return _BIG
+
+
 def catalogue(tier: str) -> t.List[Base]:
     if tier in _CAT:
         return _CAT[tier]
